@@ -3,7 +3,7 @@
 # Exit 2 on any trouble.
 set -u
 export GOFLAGS=-mod=mod GOPROXY=off GOSUMDB=off GOTOOLCHAIN=local
-VERIF=/verif
+VERIF=${VERIF_DIR:-$(cd "$(dirname "$(readlink -f "$0")")" && pwd)}
 OUT=$1
 RACE=${2:-}
 cd $VERIF || exit 2
